@@ -125,3 +125,17 @@ func TestC07_R_DefaultChunkers(t *testing.T) {
 		}
 	}
 }
+
+// The largest chunk the chunker accepts (1 MiB, also builder.BlockSizeLimit) and its neighbour.
+func TestC07_R_ChunkSizeLimits(t *testing.T) {
+	for _, ck := range []string{"size-1048575", "size-1048576"} {
+		for _, n := range []int{1048575, 1048576, 1048577, 2*1048576 + 1} {
+			if err := c07Compare(lcgBytes(n, byte(n), 0), ck, 2); err != nil {
+				t.Fatalf("C07 chunk size limits: %v", err)
+			}
+		}
+	}
+	if err := c07Compare(lcgBytes(1048576+9, 3, 0), "rabin-262144-524288-1048576", 174); err != nil {
+		t.Fatalf("C07 chunk size limits: %v", err)
+	}
+}
